@@ -278,14 +278,19 @@ def run_check(prop, tier, seed):
     # ---- violations: minimise, verify replay, consult known findings
     known, fixed = load_known()
     reported, known_hits = [], []
-    rdir = os.path.join(VERIF, "replays", prop)
+    outdir = os.environ.get("HBSIM_OUT", VERIF)
+    rdir = os.path.join(outdir, "replays", prop)
     seen_classes = set()
+    also_seen = []
     for v in violations:
         viol, sc = v["violation"], v["scenario"]
         key = (viol["class"], sc["world"], viol.get("op_kind"))
         if key in seen_classes:
             continue
         seen_classes.add(key)
+        if len(reported) >= int(os.environ.get("HBSIM_MAX_REPORTS", "3")):
+            also_seen.append("%s in %s (%s), run index %s" % key[:1] + (sc["world"], viol.get("op_kind"), v["seed_index"]) if False else "%s world=%s op=%s run=%s" % (viol["class"], sc["world"], viol.get("op_kind"), v["seed_index"]))
+            continue
         rp = mini.Replayer(hb.binary(v["variant"]), tmp)
         cls0, viol0, owned0 = rp.run(sc)
         if cls0 is None:
@@ -341,6 +346,7 @@ def run_check(prop, tier, seed):
             "determinism": det_msg,
             "foreign_violations": foreign,
             "foreign_samples": foreign_samples[:3],
+            "violations_reported": [{"class": v["class"], "op_kind": v.get("op_kind"), "detail": v.get("detail", "")[:300], "replay": p} for v, p in reported],
             "known_findings_matched": [k["text"] for k, _ in known_hits],
             "fixed_entries": fixed,
             "truncated_by_wall_clock_cap": truncated,
@@ -350,8 +356,8 @@ def run_check(prop, tier, seed):
         "wall_s": round(wall, 2),
         "violations": len(reported),
     }
-    os.makedirs(os.path.join(VERIF, "evidence"), exist_ok=True)
-    with open(os.path.join(VERIF, "evidence", prop + ".json"), "w") as f:
+    os.makedirs(os.path.join(outdir, "evidence"), exist_ok=True)
+    with open(os.path.join(outdir, "evidence", prop + ".json"), "w") as f:
         json.dump(evidence, f, indent=1)
     shutil.rmtree(tmp, ignore_errors=True)
     log("runs=%d executions=%d ops=%d distinct_nontrivial=%d states=%d wall=%.1fs" % (tot["runs"], tot["executions"], tot["ops"], distinct, states, wall))
@@ -363,6 +369,8 @@ def run_check(prop, tier, seed):
     for viol, path in reported:
         log("violation class=%s op=%s: %s" % (viol["class"], viol.get("op_kind"), viol.get("detail", "")[:300]))
         log("VIOLATION property=%s replay=%s" % (prop, path))
+    for a in also_seen:
+        log("also seen (not minimised): " + a)
     if reported:
         return 1
     if missing:
